@@ -81,6 +81,10 @@ def gen_spec(rng):
     rels = []
     for _ in range(rng.randint(0, 3)):
         e1 = rng.choice(ents); e2 = rng.choice(ents)
+        # bias: references to composite keys, and references declared in subclasses
+        ck = [x for x in ents if x['cpk']]; sub = [x for x in ents if x['base']]
+        if ck and rng.random() < 0.35: e1 = rng.choice(ck)
+        if sub and rng.random() < 0.35: e2 = rng.choice(sub)
         kind = rng.choice(['o2m', 'o2m', 'o2o', 'm2m', 'm2m'])
         n1 = fresh_attr(e1)
         a1 = {'name': n1, 'opts': {}}
